@@ -10,8 +10,6 @@ From Verif Require Import lib.C07_Base C07.Model C07.Forms gen.C07Filters.
 Open Scope R_scope.
 
 (** the threshold *)
-Lemma src_eps_value : src_eps = 5 / 10000.
-Proof. unfold src_eps. lra. Qed.
 Lemma src_eps_range : 0 < src_eps <= 1 / 2.
 Proof. unfold src_eps. lra. Qed.
 
